@@ -102,3 +102,22 @@ def Attr(value, attr):
 
 def Compare(left, op, right):
     return Obj('Compare', left=left, ops=[Obj(op)], comparators=[right])
+
+
+_MISSING_PROP = object()
+
+
+def public_value(model, obj, name):
+    """Value of the public attribute / property `name` of an object of a repository class (a binding: name, allow_rename, reserved, references),
+    read the way client code reads it - the private attribute behind it may be called anything."""
+    from .absint import Interp, TOP, _Raise, _Abort
+    from .model import LostAnchor
+    if name in obj.attrs:
+        return obj.attrs[name]
+    if obj.qual is None or model is None:
+        raise LostAnchor('object of class %s has no attribute %s' % (obj.cls, name))
+    I = Interp(model, obj.qual.rsplit('.', 1)[0], {})
+    res = I.explore(lambda: I.getattr(obj, name))
+    if len(res) != 1 or res[0][0][0] != 'return' or res[0][0][1] is TOP:
+        raise LostAnchor('objects of %s have no readable public attribute %s' % (obj.qual, name))
+    return res[0][0][1]
